@@ -29,7 +29,7 @@ func init() {
 	core.Register(&core.Check{
 		ID: "C33", Level: "other", Title: "Approved governance requests are consumed",
 		Explain: "For each of the 8 approval methods with a pending-request record (frozen pairs method→request getter; the set of Approve* handlers is re-enumerated from NativeService.Register on every run and an unpaired one breaks the check): the storage key shape the getter reads (key-shape summary with the request id substituted from the call site) must be deleted by a CacheDB.Delete in the method whose key has the identical shape and, where the id is a fixed-width encoding, encodes the same SSA value as the getter's id argument; and every success return reached through the CheckConsensusSigns==true edge executes that Delete first (must-pass-through on the CFG with the not-yet-approved edge removed). NOT decided: the history statement itself (follows from delete + C32's sign-set reset).",
-		Run: runC33,
+		Run:     runC33,
 	})
 }
 
